@@ -11,6 +11,7 @@
   (`restore_after` in Lemmas/Frame.lean is where `DStack.restore`/`dropSnap` are used).
 -/
 import PestModel.Props.C03
+import PestModel.Props.C02
 
 namespace Pest
 namespace C05
